@@ -17,9 +17,9 @@ def run(tier, seed, jobs):
         configs = [
             {"mod": MOD, "cls": "EventModel", "params": {"n": 4}, "opts": o},
             {"mod": MOD, "cls": "CondModel", "params": {"n": 3, "notify": [0, 1, 2, 3]},
-             "opts": o},
+             "opts": o, "max_depth": 6},
             {"mod": MOD, "cls": "CondModel", "params": {"n": 4, "notify": [1, 2]},
-             "opts": {"pairs": False}, "max_depth": 8},
+             "opts": {"pairs": False}, "max_depth": 14},
         ]
     configs.append({"mod": MOD, "cls": "EventModel",
                     "params": {"n": 2 if tier == "quick" else 3, "adapter": True}, "opts": o})
